@@ -51,6 +51,7 @@ def main():
         cover.update(st.get('cover', {}))
     ck.coverage.update(states=m['states'], transitions=m['transitions'], max_depth=m['max_depth'],
                        traces_validated_against_impl=m['replays_validated'],
+                       traces_replayed_with_the_event_loop_never_left=m.get('continuous_validated', 0),
                        abstraction_checks=m['abstraction_checks'], caps_hit=m['caps_hit'], exhaustive=m['completed'],
                        drains=m['states'], per_scenario=stats, oracle_applicability=dict(sorted(cover.items())), samples=samples,
                        bounds=[C.label(s) for s in SCEN],
